@@ -2074,9 +2074,26 @@ static void setStartToken(xta_part_t part, bool newxta)
     }
 }
 
+/**
+ * Closes the scopes that a parse leaves open. The scope of a quantifier, function, block .. is opened by
+ * one action of its production and closed by a later one; a text that ends in between (a label cut short
+ * inside a quantifier) never reaches the closing action, and the next block of the same document or the
+ * next query of the same builder would be parsed inside the abandoned scope.
+ */
+struct parse_restorer_t
+{
+    ParserBuilder* builder;
+    size_t scopes;
+    explicit parse_restorer_t(ParserBuilder* builder): builder{builder}, scopes{builder->scope_depth()} {}
+    parse_restorer_t(const parse_restorer_t&) = delete;
+    ~parse_restorer_t() { builder->restore_scope(scopes); }
+};
+
 static int32_t parse_XTA(ParserBuilder *aParserBuilder,
         		bool newxta, xta_part_t part, std::string xpath)
 {
+    const auto restorer = parse_restorer_t{aParserBuilder};
+
     // Select syntax
     syntax = newxta ? syntax_t::NEW_GUIDING : syntax_t::OLD_GUIDING;
     setStartToken(part, newxta);
@@ -2107,6 +2124,7 @@ static int32_t parse_XTA(ParserBuilder *aParserBuilder,
 
 static int32_t parseProperty(ParserBuilder *aParserBuilder, const std::string& xpath)
 {
+    const auto restorer = parse_restorer_t{aParserBuilder};
     // Select syntax
     syntax = syntax_t::PROPERTY;
     setStartToken(S_PROPERTY, false);
